@@ -177,19 +177,27 @@ def classify(coords, r: Fraction) -> str:
 
 
 def counts_of(coords_in, coords_out) -> Optional[List[int]]:
-    """number of vertices inserted per input edge (None if the input is not a subsequence)"""
+    """number of vertices inserted per input edge (None if the input is not a subsequence).
+    A vertex inserted exactly at the end point of its edge (binary64 can accumulate d = k*r to one ulp below the
+    length) is counted with that edge, not with the next one."""
     out = []
     j = 0
     if not coords_out or tuple(coords_out[0]) != tuple(coords_in[0]):
         return None
-    for q in coords_in[1:]:
+    n_in = len(coords_in)
+    for i in range(1, n_in):
+        q = tuple(coords_in[i])
         k = 0
         j += 1
-        while j < len(coords_out) and tuple(coords_out[j]) != tuple(q):
+        while j < len(coords_out) and tuple(coords_out[j]) != q:
             j += 1
             k += 1
         if j >= len(coords_out):
             return None
+        nxt = tuple(coords_in[i + 1]) if i + 1 < n_in else None
+        while nxt != q and j + 1 < len(coords_out) and tuple(coords_out[j + 1]) == q:
+            j += 1
+            k += 1
         out.append(k)
     return out
 
@@ -515,7 +523,7 @@ def run_float_stream(R: Run):
     """arbitrary doubles: only the property predicate is evaluated (nothing compared with the model)"""
     gm, _ = _mods()
     rng = R.rng
-    for _ in range(R.pick(2500, 25000)):
+    for _ in range(R.pick(900, 12000)):
         mag = 10.0 ** rng.uniform(-3, 6)
         far = rng.random() < 0.5
         ox = rng.uniform(-1, 1) * (10.0 ** rng.uniform(2, 7) if far else mag * 0.01)
@@ -532,7 +540,7 @@ def run_float_stream(R: Run):
                               rng.uniform(-math.pi, math.pi)])
             ln = mag * rng.uniform(0.01, 1)
             pts.append((pts[-1][0] + ln * math.cos(ang), pts[-1][1] + ln * math.sin(ang)))
-        r = mag * rng.choice([0.003, 0.01, 0.05, 0.2, 1 / 3, 1.0, 3.0])
+        r = mag * rng.choice([0.01, 0.03, 0.05, 0.2, 1 / 3, 1.0, 3.0])
         try:
             out = real_densify(gm, pts, r)
         except BaseException as e:  # pylint: disable=broad-except
@@ -571,7 +579,7 @@ def oracle_segmented(R: Run, shp, r: float, out, kind: str):
 def run_segmented(R: Run):
     gm, _ = _mods()
     rng = R.rng
-    for _ in range(R.pick(40, 400)):
+    for _ in range(R.pick(25, 300)):
         for fam in ("axis", "pyth"):
             kinds, r = shapes_for(rng, fam)
             for kind, shp in kinds.items():
@@ -609,7 +617,7 @@ def run_segmented(R: Run):
     # float stream on every kind: arbitrary rotation / position / resolution
     from shapely import affinity
 
-    for _ in range(R.pick(60, 600)):
+    for _ in range(R.pick(20, 300)):
         kinds, _ = shapes_for(rng, rng.choice(["axis", "pyth"]))
         ang = rng.uniform(0, 360)
         sc = 10.0 ** rng.uniform(-2, 3)
@@ -858,11 +866,14 @@ def run_to_crs_pyproj(R: Run):
 
 
 def run(R: Run):
-    run_densify(R)
-    run_segmented(R)
-    run_to_crs_model(R)
-    run_float_stream(R)
-    run_to_crs_pyproj(R)
+    import time
+
+    timing = {}
+    for fn in (run_densify, run_segmented, run_to_crs_model, run_float_stream, run_to_crs_pyproj):
+        t0 = time.time()
+        fn(R)
+        timing[fn.__name__] = round(time.time() - t0, 2)
+    R.extra["section_seconds"] = timing
     R.exhaustive = False
     R.assumptions.append("shapely: LineString.length is the Euclidean length and interpolate(d) = p1 + (d/len)(p2-p1) "
                          "(contract EdgeOk; exercised by the exact stream and the on-edge / max-gap oracles)")
